@@ -406,20 +406,71 @@ func runPipe(c PipeCase) ([]vk.Violation, vk.Info) {
 	}
 	// cleanup (asserted like any other call when it is the first Shutdown)
 	doCall("shutdown", 0)
+	// Then the application shuts every batch processor down itself, with a live
+	// context (a later Shutdown call on the processor, issued strictly after
+	// whatever the provider did to it had returned).
+	direct := make([]*callRec, n)
+	for i, p := range c.Procs {
+		if p.Kind != "bsp" || exps[i] == nil {
+			continue
+		}
+		r := &callRec{kind: "shutdown", start: clock.Tick()}
+		r.err = probes[i].SpanProcessor.Shutdown(context.Background())
+		r.end = clock.Tick()
+		direct[i] = r
+	}
 	// A batch processor whose Shutdown gave up (context) keeps draining in the
-	// background: wait, bounded, until every exporter has been shut down and
-	// is idle, so that nothing of this case is still running (cleanup only).
+	// background: wait until every exporter has been shut down and is idle (the
+	// processor does that after its final export). Bounded: 2 s when nothing is
+	// outstanding (cleanup only), a 30 s hang watchdog while a span that ended
+	// before the processor's first Shutdown call is still missing (the drain
+	// takes milliseconds).
+	outstanding := func(i int) bool {
+		e := exps[i]
+		first := int64(1) << 62
+		for _, r := range probes[i].calls {
+			if r.kind == "shutdown" && r.start < first {
+				first = r.start
+			}
+		}
+		if direct[i] != nil && direct[i].start < first {
+			first = direct[i].start
+		}
+		got := map[int]bool{}
+		e.mu.Lock()
+		for _, call := range e.calls {
+			for _, id := range call.ids {
+				got[id] = true
+			}
+		}
+		e.mu.Unlock()
+		for id, s := range spans {
+			if s.sampled && s.regs[i] && s.endRet < first && !got[id] {
+				return true
+			}
+		}
+		return false
+	}
+	quiescent := make([]bool, n)
+	begin := time.Now() // one budget for all exporters of the case
 	for i, e := range exps {
 		if e == nil {
 			continue
 		}
-		for k := 0; k < 8000 && e.shutdowns.Load() == 0; k++ {
+		for {
+			if e.shutdowns.Load() > 0 && e.inflight.Load() == 0 {
+				quiescent[i] = true
+				break
+			}
+			limit := 2 * time.Second
+			if c.Procs[i].Kind == "bsp" && outstanding(i) {
+				limit = 30 * time.Second
+			}
+			if time.Since(begin) > limit {
+				break
+			}
 			time.Sleep(500 * time.Microsecond)
 		}
-		for k := 0; k < 8000 && e.inflight.Load() != 0; k++ {
-			time.Sleep(500 * time.Microsecond)
-		}
-		_ = i
 	}
 
 	// ---- oracle ----
@@ -533,6 +584,22 @@ func runPipe(c PipeCase) ([]vk.Violation, vk.Info) {
 			}
 			if r.kind == "shutdown" && r == procShutdown {
 				deliver(fmt.Sprintf("Shutdown of processor #%d", i), r.start, r.end)
+			}
+		}
+		// A Shutdown call on this processor failed (its context ended) and the
+		// later, direct Shutdown(live) returned nil: once the processor is
+		// quiescent every span it owed when its first Shutdown was issued has
+		// been handed over - a span that is never handed over at all falsifies
+		// that nil return however "by the time that call returns" is read.
+		if d := direct[i]; d != nil && d.err == nil && procShutdown != nil && procShutdown.err != nil {
+			info.Class("direct_processor_Shutdown_returned_nil_after_its_Shutdown_inside_the_provider_failed")
+			for id, s := range spans {
+				if !s.sampled || !s.regs[i] || s.endRet >= procShutdown.start || droppable {
+					continue
+				}
+				if _, ok := where[id]; !ok {
+					bad("lost_after_failed_shutdown", "span %d (End returned t=%d) never reached the exporter of batch processor #%d although its Shutdown(live) (t=%d..%d) returned nil after the Shutdown issued by the provider (t=%d..%d) had returned %v (quiescent=%v); pipeline %s", id, s.endRet, i, d.start, d.end, procShutdown.start, procShutdown.end, procShutdown.err, quiescent[i], pipeline)
+				}
 			}
 		}
 		info.ClassIf(droppable, "bsp_that_may_drop(lost not asserted)")
